@@ -5,6 +5,7 @@
 #include <nstd/String.hpp>
 #undef private
 #include <nstd/List.hpp>
+#include <nstd/HashSet.hpp>
 #include <nstd/Debug.hpp>
 #include <stdarg.h>
 #include <unistd.h>
@@ -149,31 +150,34 @@ struct Operand
 
 union Arg { int d; unsigned u; long long q; unsigned long long w; const char* s; int c; };
 
-template<typename A> static int call2(String& s, const char* f, A a, char k2, const Arg& b)
+// `out == 0`: s.printf(f, …);  else: *out = String::fromPrintf(f, …)
+#define PF(...) (out ? ((*out = String::fromPrintf(__VA_ARGS__)), 0) : s.printf(__VA_ARGS__))
+
+template<typename A> static int call2(String& s, String* out, const char* f, A a, char k2, const Arg& b)
 {
   switch(k2)
   {
-  case 0: return s.printf(f, a);
-  case 'D': return s.printf(f, a, b.d);
-  case 'U': return s.printf(f, a, b.u);
-  case 'Q': return s.printf(f, a, b.q);
-  case 'W': return s.printf(f, a, b.w);
-  case 'S': return s.printf(f, a, b.s);
-  default: return s.printf(f, a, b.c);
+  case 0: return PF(f, a);
+  case 'D': return PF(f, a, b.d);
+  case 'U': return PF(f, a, b.u);
+  case 'Q': return PF(f, a, b.q);
+  case 'W': return PF(f, a, b.w);
+  case 'S': return PF(f, a, b.s);
+  default: return PF(f, a, b.c);
   }
 }
 
-static int call1(String& s, const char* f, char k1, const Arg& a, char k2, const Arg& b)
+static int call1(String& s, String* out, const char* f, char k1, const Arg& a, char k2, const Arg& b)
 {
   switch(k1)
   {
-  case 0: return s.printf(f, 0); // no directive at all (the argument is ignored)
-  case 'D': return call2(s, f, a.d, k2, b);
-  case 'U': return call2(s, f, a.u, k2, b);
-  case 'Q': return call2(s, f, a.q, k2, b);
-  case 'W': return call2(s, f, a.w, k2, b);
-  case 'S': return call2(s, f, a.s, k2, b);
-  default: return call2(s, f, a.c, k2, b);
+  case 0: return PF(f, 0); // no directive at all (the argument is ignored)
+  case 'D': return call2(s, out, f, a.d, k2, b);
+  case 'U': return call2(s, out, f, a.u, k2, b);
+  case 'Q': return call2(s, out, f, a.q, k2, b);
+  case 'W': return call2(s, out, f, a.w, k2, b);
+  case 'S': return call2(s, out, f, a.s, k2, b);
+  default: return call2(s, out, f, a.c, k2, b);
   }
 }
 
@@ -200,6 +204,77 @@ int main()
     char* d2 = 0;
     bool printed = false;
     if(hxIs(l, "reset", 0)) { resetAll(); printf("- ; "); observe(); continue; }
+    // ---- static helpers on C strings / chars (no String variable involved) ----
+    {
+      const char* op = l.tok[0];
+      bool two = !strcmp(op, "sCompare") || !strcmp(op, "sCompareIC") || !strcmp(op, "sFind") || !strcmp(op, "sFindOneOf") ||
+                 !strcmp(op, "sFindLast") || !strcmp(op, "sFindLastOf");
+      bool twoN = !strcmp(op, "sCompareN") || !strcmp(op, "sCompareICN");
+      bool oneC = !strcmp(op, "sFindC") || !strcmp(op, "sFindLastC");
+      if((two && l.ntok == 3) || (twoN && l.ntok == 4) || (oneC && l.ntok == 3) || hxIs(l, "sLength", 1) || hxIs(l, "sStartsWith", 2))
+      {
+        if(!isHexTok(l.tok[1])) BAD();
+        char* a = hxCStr(l.tok[1], len);
+        if(!nulFree(a, len)) { free(a); BAD(); }
+        char* b = 0;
+        if(two || twoN)
+        {
+          if(!isHexTok(l.tok[2])) { free(a); BAD(); }
+          b = hxCStr(l.tok[2], len2);
+          if(!nulFree(b, len2)) { free(a); free(b); BAD(); }
+        }
+        if(!strcmp(op, "sCompare")) printf("%d", String::compare(a, b));
+        else if(!strcmp(op, "sCompareN")) printf("%d", String::compare(a, b, hxNum(l, 3)));
+        else if(!strcmp(op, "sCompareIC")) printf("%d", String::compareIgnoreCase(a, b));
+        else if(!strcmp(op, "sCompareICN")) printf("%d", String::compareIgnoreCase(a, b, hxNum(l, 3)));
+        else if(!strcmp(op, "sLength")) printf("%lu", (unsigned long)String::length(a));
+        else if(oneC)
+        {
+          if(!isByte(l.tok[2], c)) { free(a); BAD(); }
+          const char* r = op[5] == 'C' ? String::find(a, (char)c) : String::findLast(a, (char)c);
+          printf("%ld", r ? (long)(r - a) : -1L);
+        }
+        else if(!strcmp(op, "sStartsWith"))
+        {
+          Operand x;
+          if(!x.parse(l.tok[2])) { free(a); BAD(); }
+          printf("%d", (int)String::startsWith(a, *x.s));
+        }
+        else
+        {
+          const char* r = !strcmp(op, "sFind") ? String::find(a, b) : !strcmp(op, "sFindOneOf") ? String::findOneOf(a, b) :
+                          !strcmp(op, "sFindLast") ? String::findLast(a, b) : String::findLastOf(a, b);
+          printf("%ld", r ? (long)(r - a) : -1L);
+        }
+        free(a); free(b);
+        printf(" ; "); observe(); continue;
+      }
+      if(hxIs(l, "isSpace", 1) || hxIs(l, "toLowerC", 1) || hxIs(l, "toUpperC", 1) || hxIs(l, "ctype", 2))
+      {
+        bool ct = l.tok[0][0] == 'c';
+        if(!isByte(l.tok[ct ? 2 : 1], c)) BAD();
+        char ch = (char)c;
+        if(!strcmp(op, "isSpace")) printf("%d", (int)String::isSpace(ch));
+        else if(!strcmp(op, "toLowerC")) printf("%u", (unsigned)(unsigned char)String::toLowerCase(ch));
+        else if(!strcmp(op, "toUpperC")) printf("%u", (unsigned)(unsigned char)String::toUpperCase(ch));
+        else
+        {
+          const char* k = l.tok[1];
+          int r;
+          if(!strcmp(k, "alnum")) r = String::isAlphanumeric(ch);
+          else if(!strcmp(k, "alpha")) r = String::isAlpha(ch);
+          else if(!strcmp(k, "digit")) r = String::isDigit(ch);
+          else if(!strcmp(k, "lower")) r = String::isLowerCase(ch);
+          else if(!strcmp(k, "print")) r = String::isPrint(ch);
+          else if(!strcmp(k, "punct")) r = String::isPunct(ch);
+          else if(!strcmp(k, "upper")) r = String::isUpperCase(ch);
+          else if(!strcmp(k, "xdigit")) r = String::isHexDigit(ch);
+          else BAD();
+          printf("%d", r);
+        }
+        printf(" ; "); observe(); continue;
+      }
+    }
     if(l.ntok < 2 || !isVar(l.tok[1], v)) BAD();
     {
     String& s = *var[v];
@@ -299,8 +374,92 @@ int main()
       printed = true;
     }
     else if(hxIs(l, "join", 2)) { if(!isByte(l.tok[2], c)) BAD(); s.join(*toks, (char)c); }
-    else if(l.ntok >= 2 && strcmp(l.tok[0], "printf") == 0)
+    else if(hxIs(l, "plusEqS", 2)) { if(!isVar(l.tok[2], w)) BAD(); s += *var[w]; }
+    else if(hxIs(l, "plusEqC", 2)) { if(!isByte(l.tok[2], c)) BAD(); s += (char)c; }
+    else if(hxIs(l, "plus", 3)) { if(!isVar(l.tok[2], w) || !isVar(l.tok[3], w2)) BAD(); s = *var[w] + *var[w2]; }
+    else if(hxIs(l, "plusLit", 3))
     {
+      if(!isVar(l.tok[2], w)) BAD();
+      unsigned long r = hxNum(l, 3);
+      if(r == 0) s = *var[w] + *(const char(*)[sizeof(REG0)])reg[0];
+      else if(r == 1) s = *var[w] + *(const char(*)[sizeof(REG1)])reg[1];
+      else BAD();
+    }
+    else if(hxIs(l, "fromCStr", 2)) { if(!isHexTok(l.tok[2])) BAD(); d = hxCStr(l.tok[2], len); if(!nulFree(d, len)) { free(d); BAD(); } s = String::fromCString(d); }
+    else if(hxIs(l, "fromCStrN", 2)) { if(!isHexTok(l.tok[2])) BAD(); d = (char*)hxBytes(l.tok[2], len); s = String::fromCString(d, len); }
+    else if(hxIs(l, "fromBool", 2)) { unsigned long b = hxNum(l, 2); if(b > 1) BAD(); s = String::fromBool(b == 1); }
+    else if(hxIs(l, "fromInt", 2)) { long long x = strtoll(l.tok[2], 0, 10); if(x < -2147483648LL || x > 2147483647LL) BAD(); s = String::fromInt((int)x); }
+    else if(hxIs(l, "fromInt64", 2)) { s = String::fromInt64((int64)strtoll(l.tok[2], 0, 10)); }
+    else if(hxIs(l, "fromUInt", 2)) { unsigned long long x = strtoull(l.tok[2], 0, 10); if(x > 4294967295ULL || l.tok[2][0] == '-') BAD(); s = String::fromUInt((uint)x); }
+    else if(hxIs(l, "fromUInt64", 2)) { if(l.tok[2][0] == '-') BAD(); s = String::fromUInt64((uint64)strtoull(l.tok[2], 0, 10)); }
+    else if(hxIs(l, "trimD", 1)) s.trim();
+    else if(hxIs(l, "substr1", 3)) { if(!isVar(l.tok[2], w)) BAD(); s = var[w]->substr((ssize)hxInt(l, 3)); }
+    else if(hxIs(l, "splitD", 2) || hxIs(l, "splitSet", 3))
+    {
+      if(!isHexTok(l.tok[2])) BAD();
+      d = hxCStr(l.tok[2], len);
+      if(!nulFree(d, len)) { free(d); BAD(); }
+      if(l.tok[0][5] == 'D')
+      {
+        usize n = s.split(*toks, d);
+        printf("%lu", (unsigned long)n);
+        for(List<String>::Iterator i = toks->begin(), end = toks->end(); i != end; ++i)
+        {
+          printf(" ");
+          hxPutHex(i->data->str, i->data->len);
+        }
+      }
+      else
+      {
+        HashSet<String> set;
+        usize n = s.split(set, d, hxNum(l, 3) != 0);
+        printf("%lu", (unsigned long)n);
+        for(HashSet<String>::Iterator i = set.begin(), end = set.end(); i != end; ++i)
+        {
+          printf(" ");
+          hxPutHex(i->data->str, i->data->len);
+        }
+      }
+      printf(" ; ");
+      printed = true;
+    }
+    else if(hxIs(l, "attachA", 3))
+    {
+      usize o = hxNum(l, 2), n = hxNum(l, 3);
+      if(o + n > s.length()) BAD();
+      const char* p = s;
+      s.attach(p + o, n);
+    }
+    else if(hxIs(l, "printfA", 3))
+    {
+      if(!isHexTok(l.tok[2]) || !isHexTok(l.tok[3])) BAD();
+      d = hxCStr(l.tok[2], len);
+      d2 = hxCStr(l.tok[3], len2);
+      if(!nulFree(d, len) || !nulFree(d2, len2) || memchr(d, '%', len) || memchr(d2, '%', len2)) { free(d); free(d2); BAD(); }
+      char* f = (char*)malloc(len + len2 + 3);
+      memcpy(f, d, len); f[len] = '%'; f[len + 1] = 's'; memcpy(f + len + 2, d2, len2 + 1);
+      const char* p = s;
+      int r = s.printf(f, p);
+      free(f);
+      printf("%d ; ", r);
+      printed = true;
+    }
+    else if(hxIs(l, "capacity", 1)) { printf("%lu ; ", (unsigned long)s.capacity()); printed = true; }
+    else if(hxIs(l, "isEmpty", 1)) { printf("%d ; ", (int)s.isEmpty()); printed = true; }
+    else if(hxIs(l, "eqLit", 2) || hxIs(l, "neLit", 2))
+    {
+      unsigned long r = hxNum(l, 2);
+      bool ne = l.tok[0][0] == 'n';
+      bool res;
+      if(r == 0) res = ne ? s != *(const char(*)[sizeof(REG0)])reg[0] : s == *(const char(*)[sizeof(REG0)])reg[0];
+      else if(r == 1) res = ne ? s != *(const char(*)[sizeof(REG1)])reg[1] : s == *(const char(*)[sizeof(REG1)])reg[1];
+      else BAD();
+      printf("%d ; ", (int)res);
+      printed = true;
+    }
+    else if(l.ntok >= 2 && (strcmp(l.tok[0], "printf") == 0 || strcmp(l.tok[0], "fromPrintf") == 0))
+    {
+      bool from = l.tok[0][0] == 'f';
       static char fmt[1 << 16];
       size_t fl = 0;
       char kinds[2] = {0, 0};
@@ -349,14 +508,16 @@ int main()
       // the format is handed over as an exactly sized heap copy
       char* f = (char*)malloc(fl + 1);
       memcpy(f, fmt, fl + 1);
-      int r = call1(s, f, kinds[0], args[0], kinds[1], args[1]);
+      String result;
+      int r = call1(s, from ? &result : 0, f, kinds[0], args[0], kinds[1], args[1]);
       free(f); free(strs[0]); free(strs[1]);
-      printf("%d ; ", r);
-      printed = true;
+      if(from) s = result;
+      else { printf("%d ; ", r); printed = true; }
     }
     else if(l.ntok >= 3 && (hxIs(l, "compare", 2) || hxIs(l, "compareIC", 2) || hxIs(l, "eq", 2) || hxIs(l, "eqIC", 2) ||
                             hxIs(l, "startsWith", 2) || hxIs(l, "endsWith", 2) || hxIs(l, "compareN", 3) || hxIs(l, "compareICN", 3) ||
-                            hxIs(l, "prependX", 2) || hxIs(l, "appendX", 2)))
+                            hxIs(l, "prependX", 2) || hxIs(l, "appendX", 2) || hxIs(l, "ne", 2) || hxIs(l, "lt", 2) || hxIs(l, "le", 2) ||
+                            hxIs(l, "gt", 2) || hxIs(l, "ge", 2) || hxIs(l, "eqICN", 3)))
     {
       Operand x;
       if(!x.parse(l.tok[2])) BAD();
@@ -371,6 +532,12 @@ int main()
         printf(e == !n ? "%d ; " : "inconsistent%d ; ", (int)e);
       }
       else if(!strcmp(op, "eqIC")) printf("%d ; ", (int)s.equalsIgnoreCase(*x.s));
+      else if(!strcmp(op, "eqICN")) printf("%d ; ", (int)s.equalsIgnoreCase(*x.s, hxNum(l, 3)));
+      else if(!strcmp(op, "ne")) printf("%d ; ", (int)(s != *x.s));
+      else if(!strcmp(op, "lt")) printf("%d ; ", (int)(s < *x.s));
+      else if(!strcmp(op, "le")) printf("%d ; ", (int)(s <= *x.s));
+      else if(!strcmp(op, "gt")) printf("%d ; ", (int)(s > *x.s));
+      else if(!strcmp(op, "ge")) printf("%d ; ", (int)(s >= *x.s));
       else if(!strcmp(op, "startsWith")) printf("%d ; ", (int)s.startsWith(*x.s));
       else if(!strcmp(op, "endsWith")) printf("%d ; ", (int)s.endsWith(*x.s));
       else if(!strcmp(op, "prependX")) { s.prepend(*x.s); printf("- ; "); }
